@@ -43,6 +43,13 @@ pub fn build_chain_model(raw: &[(u16, u8, u16)], extra: (u16, i8, i8)) -> (Model
         state = state.wrapping_mul(6364136223846793005).wrapping_add(1442695040888963407);
         ((state >> 33) as usize) % m.max(1)
     };
+    // variables for the cross constraints: half of the picks come from the two ends of the chain, so that a
+    // conflict tends to involve predicates which are hundreds of propagation steps apart
+    let mut pick_var = |next: &mut dyn FnMut(usize) -> usize| match next(4) {
+        0 => next(n / 20 + 1),
+        1 => n - 1 - next(n / 20 + 1),
+        _ => next(n),
+    };
     let k = 10 + next(50);
     for _ in 0..k {
         match next(3) {
@@ -51,7 +58,7 @@ pub fn build_chain_model(raw: &[(u16, u8, u16)], extra: (u16, i8, i8)) -> (Model
                 let len = 2 + next(2);
                 let mut preds: Vec<Pred> = (0..len)
                     .map(|_| {
-                        let var = next(n);
+                        let var = pick_var(&mut next);
                         if next(2) == 0 { Pred { var, kind: PKind::Ge, val: 1 } } else { Pred { var, kind: PKind::Le, val: 0 } }
                     })
                     .collect();
@@ -66,7 +73,7 @@ pub fn build_chain_model(raw: &[(u16, u8, u16)], extra: (u16, i8, i8)) -> (Model
                 let len = 2 + next(2);
                 let mut vs: Vec<usize> = vec![];
                 while vs.len() < len {
-                    let v = next(n);
+                    let v = pick_var(&mut next);
                     if !vs.contains(&v) {
                         vs.push(v);
                     }
@@ -139,8 +146,8 @@ pub fn solve_case_strategy(p: &GenParams, paths: &'static [u8]) -> BoxedStrategy
                 cfg.no_learning = false;
                 EXCLUDED_NOLEARN_ASSUMPTIONS.fetch_add(1, std::sync::atomic::Ordering::Relaxed);
             }
-            if ex.0 == 255 {
-                // one case in 256: a long-chain model judged by certificate
+            if ex.0 >= 252 {
+                // one case in 64: a long-chain model judged by certificate
                 let (model, witness) = build_chain_model(&ex.3, ex.1);
                 return SolveCase { model, cfg, path: 0, objective: Term::plain(0), maximise: false, assumptions: vec![], witness: Some(witness) };
             }
